@@ -33,7 +33,7 @@ LEVEL_TEXT = ("Exploration over all classes: each run converts hundreds of harne
 LEVEL_NOTE = "Trusts ref_types.py and the generator's structure; expected values are computed from the TEXT, not from the library."
 DESIGN_REF = "DESIGN.md §3 C03"
 MIN_COUNTERS = {"quick": {"documents": 1500, "leaves_compared": 20000, "classes": 380, "datetime_leaves": 1500, "enum_tokens_read": 2500},
-                "thorough": {"documents": 150000, "leaves_compared": 2000000, "classes": 380, "datetime_leaves": 20000, "enum_tokens_read": 2500}}
+                "thorough": {"documents": 120000, "leaves_compared": 1400000, "classes": 380, "datetime_leaves": 20000, "enum_tokens_read": 2500}}
 
 V1HDR = "OFXHEADER:100\r\nDATA:OFXSGML\r\nVERSION:160\r\nSECURITY:NONE\r\nENCODING:UNICODE\r\nCHARSET:NONE\r\nCOMPRESSION:NONE\r\nOLDFILEUID:NONE\r\nNEWFILEUID:NONE\r\n\r\n"
 V2HDR = '<?xml version="1.0" encoding="UTF-8" standalone="no"?>\r\n<?OFX OFXHEADER="200" VERSION="220" SECURITY="NONE" OLDFILEUID="NONE" NEWFILEUID="NONE"?>\r\n'
